@@ -199,6 +199,7 @@ pub fn run(rep: &mut Rep) {
     wa.max_inbound = 30;
     wa.kinds.push(Kind::PubBig);
     wa.after_drop_kinds.push(Kind::PubBig);
+    wa.handle_churn = true;
     let walks = if rep.quick() { 400 } else { 40000 };
     walk_world(rep, "walk", walks, 60, &|s| World::boot(WorldCfg { seed: s, order: (s % 4) as u8, receive_max: if s % 3 == 1 { Some(1 + (s % 2) as u16) } else { None }, max_packet: if s % 3 == 2 { Some(64) } else { None }, ..Default::default() }), &wa);
 }
